@@ -12,7 +12,8 @@ RULE = ('exhaustive cells: every polynomial (every integer code, monic or not) w
         'monic polynomials of degree <= deg/2, GF(modulus) accepts (right modulus/order) iff irreducible else '
         'ValueError, next_irreducible(x) == least monic irreducible with integer code > x (from the brute-force '
         'table); find_irreducible(p,d) for all p < 60 and d with p^d <= bound == least monic irreducible of degree '
-        'd. Generated: products f*g*c (must be reducible, GF must reject) over primes up to 2^255-19; random '
+        'd. Generated: products f*g*c and products of two reference-found irreducibles (must be reducible, GF must '
+        'reject) over primes up to 2^255-19; random '
         'polynomials and scalar multiples; next_irreducible from random / boundary starts (p^d-1, p^d, 2p^d-1, '
         'non-monic region, <p) and find_irreducible(p,d) for p up to 2^61-1, oracle = reference upward scan with '
         'brute force (<=4000 trial divisions) or Rabin criterion (cross-validated against brute force on every '
@@ -21,7 +22,8 @@ RULE = ('exhaustive cells: every polynomial (every integer code, monic or not) w
 ASSUMPTIONS = ['reference: vlib/refmath.py + vlib/refpoly.py (trial division, Rabin criterion with schoolbook arithmetic)',
                'order "above in integer order" = order of base-p integer codes = the lexicographic order of the '
                'module docstring; results must be monic (next_irreducible docstring)']
-CASE_TIMEOUT = 300
+CASE_TIMEOUT = 45
+SCAN_CAP = 300  # reference scan gives up (case skipped) beyond this many candidates (60 for p > 300)
 
 boot(numpy=False)
 from mpyc import gfpx, finfields  # noqa: E402
@@ -31,7 +33,7 @@ THOROUGH_BOUND = 6 * 10**4
 
 
 def budget(tier):
-    return dict(shards=16, examples=300 if tier == 'quick' else 6000)
+    return dict(shards=16, examples=450 if tier == 'quick' else 8000)
 
 
 # ------------------------------------------------------------------------------------------ plumbing
@@ -256,6 +258,19 @@ def _run_gen(case):
         chk_gf(ctx, P, p, a, False)
         labels.append('product: min factor degree ' + _dclass(min(len(f), len(g)) - 1))
         labels.append('reducible')
+    elif kind == 'semi':
+        # product of two monic irreducibles (found by the reference scan from the given starts) times a unit:
+        # reducible without small factors, the hard case for a truncated Ben-Or loop
+        y1, _ = RP.next_monic_irreducible(case['x1'], p, limit=SCAN_CAP if p <= 300 else 60)
+        y2, _ = RP.next_monic_irreducible(case['x2'], p, limit=SCAN_CAP if p <= 300 else 60)
+        if y1 is None or y2 is None:
+            return Outcome(True, '', labels=labels + ['scan cap exceeded (skipped)'], nontrivial=False, skipped=True)
+        f, g = R.pfrom_int(y1, p), R.pfrom_int(y2, p)
+        a = R.pmul(R.pmul(f, g, p), (case['c'],), p)
+        chk_irr(ctx, P, p, a, False, case.get('form', 'poly'))
+        chk_gf(ctx, P, p, a, False)
+        labels.append('semiprime: min factor degree ' + _dclass(min(len(f), len(g)) - 1))
+        labels.append('reducible')
     elif kind == 'rand':
         f, c = tuple(case['f']), case['c']
         want = RP.is_irreducible_ref(f, p)
@@ -269,7 +284,9 @@ def _run_gen(case):
         nt = len(f) >= 3
     elif kind == 'next':
         x = case['x']
-        want, tested = RP.next_monic_irreducible(x, p)
+        want, tested = RP.next_monic_irreducible(x, p, limit=SCAN_CAP if p <= 300 else 60)
+        if want is None:  # long run of reducible candidates (e.g. X^d + c when gcd(d, p-1) = 1): too slow, not wrong
+            return Outcome(True, '', labels=labels + ['scan cap exceeded (skipped)'], nontrivial=False, skipped=True)
         chk_next(ctx, P, p, x, want, case.get('form', 'int'))
         wt = R.pfrom_int(want, p)
         chk_irr(ctx, P, p, wt, True)
@@ -282,7 +299,9 @@ def _run_gen(case):
         nt = len(wt) >= 3
     elif kind == 'find':
         d = case['d']
-        want, _ = RP.next_monic_irreducible(p ** d - 1, p)
+        want, _ = RP.next_monic_irreducible(p ** d - 1, p, limit=SCAN_CAP if p <= 300 else 60)
+        if want is None:
+            return Outcome(True, '', labels=labels + ['scan cap exceeded (skipped)'], nontrivial=False, skipped=True)
         chk_find(ctx, p, d, want)
         labels.append('find degree ' + _dclass(d))
         nt = d >= 2
@@ -310,9 +329,9 @@ def _degcap(p, work):
 
 
 @st.composite
-def _poly(draw, p, d, monic=False):
+def _poly(draw, p, d, monic=False, uniform=False):
     """Polynomial of exact degree d >= 0."""
-    co = st.integers(0, p - 1) if p == 2 else st.one_of(st.just(0), st.just(1), st.just(p - 1), st.integers(0, p - 1),
+    co = st.integers(0, p - 1) if p == 2 or uniform else st.one_of(st.just(0), st.just(1), st.just(p - 1), st.integers(0, p - 1),
                                                           st.integers(0, p - 1))
     lead = 1 if monic else draw(st.one_of(st.just(1), st.integers(1, p - 1)))
     return draw(st.lists(co, min_size=d, max_size=d)) + [lead]
@@ -320,14 +339,29 @@ def _poly(draw, p, d, monic=False):
 
 @st.composite
 def _case(draw):
-    kind = draw(st.sampled_from(['prod', 'rand', 'rand', 'next', 'next', 'next', 'find']))
-    if kind in ('prod', 'rand'):
-        p = draw(st.one_of(st.sampled_from(_SMALLP), st.sampled_from(_MEDP), st.sampled_from(_BIGP),
-                           st.integers(2, 2**32).map(R.next_prime)))
-    else:
-        p = draw(st.one_of(st.sampled_from(_SMALLP), st.sampled_from(_SMALLP), st.sampled_from(_MEDP),
-                           st.sampled_from(_BIGP[:2]), st.integers(2, 2**20).map(R.next_prime)))
+    kind = draw(st.sampled_from(['prod', 'semi', 'rand', 'rand', 'next', 'next', 'next', 'find']))
     form = draw(st.sampled_from(['poly', 'poly', 'int', 'list']))
+    xkind = draw(st.sampled_from(['random', 'random', 'random', 'random', 'random', 'p^d-1', 'p^d', '2p^d-1', 'nonmonic',
+                                  'nonmonic', 'below p', 'tiny']))
+    if kind == 'semi':
+        p = draw(st.one_of(st.just(2), st.just(2), st.sampled_from(_SMALLP), st.sampled_from(_MEDP[:5])))
+        D = min(_degcap(p, 8000), 20) if p > 2 else 20
+        d1 = draw(st.integers(1, D))
+        d2 = draw(st.one_of(st.just(d1), st.integers(1, D)))
+        return {'mode': 'gen', 'kind': kind, 'p': p, 'c': draw(st.integers(1, p - 1)), 'form': form,
+                'x1': R.pto_int(tuple(draw(_poly(p, d1, monic=True))), p),
+                'x2': R.pto_int(tuple(draw(_poly(p, d2, monic=True))), p)}
+    if kind in ('prod', 'rand'):
+        p = draw(st.one_of(st.just(2), st.sampled_from(_SMALLP), st.sampled_from(_MEDP), st.sampled_from(_BIGP),
+                           st.integers(2, 2**32).map(R.next_prime)))
+    elif kind == 'next' and xkind == 'random':
+        p = draw(st.one_of(st.just(2), st.sampled_from(_SMALLP), st.sampled_from(_SMALLP), st.sampled_from(_MEDP),
+                           st.sampled_from(_BIGP[:2]), st.integers(2, 2**20).map(R.next_prime)))
+    else:
+        # structured starts can sit below a run of ~p reducible candidates (X^d + c with gcd(d, p-1) = 1; the
+        # maintainers' TODO in _next_irreducible): keep p small so that both scans stay cheap
+        p = draw(st.one_of(st.just(2), st.sampled_from(_SMALLP), st.sampled_from(_SMALLP),
+                           st.sampled_from([17, 31, 101, 251, 257]), st.integers(2, 300).map(R.next_prime)))
     if kind == 'prod':
         D = min(_degcap(p, 60000), 40)
         df = draw(st.one_of(st.integers(1, 2), st.integers(1, max(1, D // 2))))
@@ -337,9 +371,9 @@ def _case(draw):
         return {'mode': 'gen', 'kind': kind, 'p': p, 'f': f, 'g': g, 'c': draw(st.integers(1, p - 1)), 'form': form}
     if kind == 'rand':
         D = min(_degcap(p, 40000), 32)
-        d = draw(st.one_of(st.integers(0, 3), st.integers(2, max(2, D))))
-        if draw(st.integers(0, 9)) == 0:
-            f = []
+        d = draw(st.one_of(st.integers(1, 3), st.integers(2, max(2, D)), st.integers(2, max(2, D))))
+        if draw(st.integers(0, 24)) == 0:
+            f = draw(st.sampled_from([[], [1], [p - 1]]))
         else:
             f = draw(_poly(p, d))
             if p == 2 or draw(st.booleans()):
@@ -349,10 +383,9 @@ def _case(draw):
         return {'mode': 'gen', 'kind': kind, 'p': p, 'f': f, 'c': draw(st.integers(1, p - 1)), 'form': form}
     if kind == 'next':
         D = min(_degcap(p, 6000), 24)
-        xkind = draw(st.sampled_from(['random', 'random', 'p^d-1', 'p^d', '2p^d-1', 'nonmonic', 'below p', 'tiny']))
         d = draw(st.integers(1, max(1, D - 1)))
         if xkind == 'random':
-            x = draw(st.integers(0, 2 * p ** D - 1))
+            x = R.pto_int(tuple(draw(_poly(p, draw(st.integers(1, D)), monic=p > 300, uniform=p > 300))), p)
         elif xkind == 'p^d-1':
             x = p ** d - 1
         elif xkind == 'p^d':
@@ -364,7 +397,7 @@ def _case(draw):
         elif xkind == 'below p':
             x = draw(st.integers(0, p - 1))
         else:
-            x = draw(st.integers(0, 3 * p))
+            x = draw(st.integers(p, 4 * p))
         return {'mode': 'gen', 'kind': kind, 'p': p, 'x': x, 'xkind': xkind, 'form': draw(st.sampled_from(['int', 'poly']))}
     D = min(_degcap(p, 6000), 24)
     return {'mode': 'gen', 'kind': 'find', 'p': p, 'd': draw(st.one_of(st.integers(1, 3), st.integers(1, D)))}
